@@ -92,8 +92,21 @@ fn box_val(b: [f32; 4]) -> Val {
 fn box_is(b: &pdf::object::Rectangle, want: [f32; 4]) -> bool {
     [b.left, b.bottom, b.right, b.top] == want
 }
-fn build_file(nodes: &[Node], style: usize) -> Vec<u8> {
+/// where the values of a node's entries are written: any value may be an indirect object of its own
+const STORAGE: &[&str] = &["in-place", "kids-arrays-indirect", "boxes-and-resources-indirect", "counts-indirect"];
+fn build_file(nodes: &[Node], style: usize, storage: usize) -> Vec<u8> {
     let mut fb = FileBuilder::new(b"");
+    let mut next_free = nodes.iter().map(|n| n.nr).max().unwrap_or(1) + 10;
+    let mut extra: Vec<(u64, Val)> = vec![];
+    let mut place = |v: Val, indirect: bool| -> Val {
+        if indirect {
+            next_free += 1;
+            extra.push((next_free, v));
+            Val::r(next_free)
+        } else {
+            v
+        }
+    };
     fb.add(1, 0, &Val::dict(vec![("Type", Val::name("Catalog")), ("Pages", Val::r(nodes[0].nr))]));
     for (i, n) in nodes.iter().enumerate() {
         let mut d: Vec<(&str, Val)> = vec![("Type", Val::name(if n.is_page { "Page" } else { "Pages" }))];
@@ -101,20 +114,23 @@ fn build_file(nodes: &[Node], style: usize) -> Vec<u8> {
             d.push(("Parent", Val::r(nodes[p].nr)));
         }
         if !n.is_page {
-            d.push(("Kids", Val::Array(n.kids.iter().map(|&k| Val::r(nodes[k].nr)).collect())));
-            d.push(("Count", Val::Int(count(nodes, i) as i64)));
+            d.push(("Kids", place(Val::Array(n.kids.iter().map(|&k| Val::r(nodes[k].nr)).collect()), storage == 1)));
+            d.push(("Count", place(Val::Int(count(nodes, i) as i64), storage == 3)));
         }
         if n.media {
-            d.push(("MediaBox", box_val(media_box(style, i))));
+            d.push(("MediaBox", place(box_val(media_box(style, i)), storage == 2)));
         }
         if n.crop {
-            d.push(("CropBox", box_val(crop_box(style, i))));
+            d.push(("CropBox", place(box_val(crop_box(style, i)), storage == 2)));
         }
         if n.res {
             let gs = Val::Dict(vec![(format!("G{}", i).into_bytes(), Val::dict(vec![("Type", Val::name("ExtGState")), ("LW", Val::Int(i as i64))]))]);
-            d.push(("Resources", Val::dict(vec![("ExtGState", gs)])));
+            d.push(("Resources", place(Val::dict(vec![("ExtGState", gs)]), storage == 2)));
         }
         fb.add(n.nr, 0, &Val::dict(d));
+    }
+    for (nr, v) in &extra {
+        fb.add(*nr, 0, v);
     }
     fb.finish_table(&[("Root", Val::r(1))], Split::Runs);
     fb.bytes()
@@ -223,7 +239,8 @@ fn check_file(nodes: &[Node], bytes: &[u8], cached: bool, style: usize) -> std::
 
 fn judge(engine: &str, nodes: &[Node], ch: &mut Chooser, t: &mut Tally) {
     let style = ch.pick_named("box-corners", BOX_STYLES);
-    let bytes = build_file(nodes, style);
+    let storage = ch.pick_named("value-storage", STORAGE);
+    let bytes = build_file(nodes, style, storage);
     if ch.want_sample {
         println!("tree: {:?}\nfile:\n{}", nodes.iter().map(|n| (n.nr, n.is_page, n.kids.clone(), n.media, n.crop, n.res)).collect::<Vec<_>>(), String::from_utf8_lossy(&bytes));
     }
@@ -330,7 +347,7 @@ pub fn run(tier: Tier, _seed: u64, tally: &mut Tally) -> CheckMeta {
     CheckMeta {
         prop: "C07",
         level: "model_checking",
-        rule: format!("all rooted ordered trees with <= {} nodes (each childless node independently a page or an empty Pages node; full product), accurate /Count and /Parent, object numbers scrambled against document order; <= {} deviations of attribute placement (per node and per attribute MediaBox / CropBox / Resources present or absent, default: only on the root) and of the way the boxes are written (any two opposite corners, a box without area); plus chains of depth 1..12 with side pages before/after/both and an attribute-carrying level. Every file is opened uncached and cached; num_pages, get_page(i) for all i and count..count+2, media_box, crop_box (fallback), resources and pages() are compared with the reference model (DFS leaf list, nearest tagged ancestor). Distinct by file hash x configuration.", max_nodes, bound),
+        rule: format!("all rooted ordered trees with <= {} nodes (each childless node independently a page or an empty Pages node; full product), accurate /Count and /Parent, object numbers scrambled against document order; <= {} deviations of attribute placement (per node and per attribute MediaBox / CropBox / Resources present or absent, default: only on the root) and of the way the boxes are written (any two opposite corners, a box without area) and of where values are stored (/Kids arrays, boxes and resources, or /Count as indirect objects of their own); plus chains of depth 1..12 with side pages before/after/both and an attribute-carrying level. Every file is opened uncached and cached; num_pages, get_page(i) for all i and count..count+2, media_box, crop_box (fallback), resources and pages() are compared with the reference model (DFS leaf list, nearest tagged ancestor). Distinct by file hash x configuration.", max_nodes, bound),
         assumptions: vec!["object numbers are a permutation of the node indices; tagged values identify the node that supplied an attribute".into()],
         exhaustive: true,
         bounds: json!({"max_nodes": max_nodes, "attribute_deviations": bound, "chain_depth": 12}),
